@@ -52,6 +52,25 @@ class Program:
         return m
 
 
+def fresh_value(I, P, ty, name, depth=0):
+    """a value of type ty made of fresh atoms"""
+    ty = ty.strip()
+    while ty.startswith("&"):
+        ty = re.sub(r"^&('\w+ )?(mut )?", "", ty)
+    if M.int_type(ty):
+        return I.new_atom(ty, name)
+    adt = P.adts.get(ty)
+    if adt and depth < 3:
+        if adt["kind"] == "Struct":
+            return AggV(ty, [fresh_value(I, P, fty, f"{name}.{fname}", depth + 1) for fname, fty in adt["variants"][0]["fields"]])
+        if adt["kind"] == "Enum":
+            alts = {}
+            for i, v in enumerate(adt["variants"]):
+                alts[i] = tuple(fresh_value(I, P, fty, f"{name}.{v['name']}.{fname}", depth + 1) for fname, fty in v["fields"])
+            return EnumV(ty, None, (), len(adt["variants"]), frozenset({(name + "#variant", 0)}), alts)
+    return TopV(ty, frozenset({(name, 0)}))
+
+
 # ----------------------------------------------------------------------------------------------
 # models of std / regex / lalrpop_util callees.  model(I, st, args, dest_ty, fn, bb, line, fref) -> V
 
@@ -158,10 +177,13 @@ def m_len(I, st, args, dest_ty, *r):
 
 
 def m_option(payload_ty_of_dest=True):
-    def f(I, st, args, dest_ty, *r):
+    def f(I, st, args, dest_ty, fn, b, line, fref):
         d = _deps(I, st, args)
         inner = _option_inner(dest_ty)
-        pv = IntV.top(inner, d, exact=True) if M.int_type(inner) else TopV(inner, d)
+        I.fresh_n = getattr(I, "fresh_n", 0) + 1
+        recv = _deref(I, st, args[0])
+        nm = recv.tag[1] if recv.kind == "top" and recv.tag and recv.tag[0] in ("map", "vec") else "lookup"
+        pv = fresh_value(I, I.P, inner, f"{nm}[{I.fresh_n}]")
         return EnumV("Option", None, (), 2, d, {0: (), 1: (pv,)})
     return f
 
@@ -190,7 +212,11 @@ def _result_inner(ty):
 def m_from_str_radix(I, st, args, dest_ty, *r):
     d = _deps(I, st, args)
     ok, err = _result_inner(dest_ty)
-    pv = IntV.top(ok, d, exact=True) if M.int_type(ok) else TopV(ok, d)
+    tok = _deref(I, st, args[0])
+    if M.int_type(ok) and tok.kind == "top" and tok.tag and tok.tag[0] == "tok":
+        pv = I.new_atom(ok, "num:" + tok.tag[1])
+    else:
+        pv = IntV.top(ok, d, exact=True) if M.int_type(ok) else TopV(ok, d)
     return EnumV("Result", None, (), 2, d, {0: (pv,), 1: (TopV(err, d),)})
 
 
@@ -307,7 +333,8 @@ def m_iter_next_top(I, st, args, dest_ty, *r):
 def m_vec_pop(I, st, args, dest_ty, *r):
     d = _deps(I, st, args)
     inner = _option_inner(dest_ty)
-    pv = IntV.top(inner, d, exact=True) if M.int_type(inner) else TopV(inner, d)
+    I.fresh_n = getattr(I, "fresh_n", 0) + 1
+    pv = I.new_atom(inner, f"popped[{I.fresh_n}]") if M.int_type(inner) else TopV(inner, d)
     # the vector changes
     return EnumV("Option", None, (), 2, d, {0: (), 1: (pv,)})
 
@@ -397,7 +424,7 @@ MODELS = [(re.compile(p), f) for p, f in [
 REGS16 = ["ax", "bx", "cx", "dx", "sp", "bp", "si", "di", "ip", "cs", "ds", "ss", "es"]
 
 
-def build_vm(I, P, assume_regs=None):
+def build_vm(I, P, assume_regs=None, st=None):
     """abstract VM: every register is its own atom, memory is empty (= initial contents)."""
     arch = P.adts["arch::i8086"]
     vmadt = P.adts["vm::VM"]
@@ -413,9 +440,11 @@ def build_vm(I, P, assume_regs=None):
         if name == "arch":
             vmf.append(archv)
         elif name == "mem":
-            vmf.append(MemV())
+            vmf.append(RefV((0, "mem", ())))
         else:
             vmf.append(TopV(ty))
+    if st is not None:
+        st.frames[0]["mem"] = MemV()
     return AggV("vm::VM", vmf)
 
 
@@ -453,7 +482,7 @@ def run_unit(P, fn, make_args, assume=None, split=frozenset(), max_depth=10):
     st = State()
     st.frames.append({})
     st.pc.append({})
-    st.frames[0]["vm"] = build_vm(I, P)
+    st.frames[0]["vm"] = build_vm(I, P, st=st)
     vmref = RefV((0, "vm", ()))
     args = make_args(I, st, vmref)
     ret = I.run_fn(fn, args, st)
